@@ -10,7 +10,7 @@ documented category.
 from __future__ import annotations
 
 from harness import impl as I
-from harness.common import ImplWorker, Model, Report
+from harness.common import ImplWorker, Model, Report, rng_for
 
 FLOAT_STD = {"f16", "f32", "f64"}
 SIGNED = {"i8", "i16", "i32", "i64"}
@@ -50,6 +50,50 @@ def impl_accepts(a: dict) -> dict:
         out = I.canon_exc(e)
         out["array_dtype"] = got
         return out
+
+
+def impl_accepts_sequence(a: dict) -> dict:
+    """ONE annotation object checks arrays of many dtypes one after the other (an annotation alias serves every call of every
+    function that uses it): each answer must be the one a fresh object gives, whatever was checked before."""
+    import dltype
+
+    t = getattr(dltype, a["cls"])("n m")
+    vs = []
+    for dt in a["dts"]:
+        x = I.mk_array(a["lib"], dt, (2, 3))
+        try:
+            t.check(x, "x")
+            vs.append("accept")
+        except BaseException as e:  # noqa: BLE001
+            o = I.canon_exc(e)
+            vs.append(o.get("kind") or o.get("exn") or o["v"])
+    return {"vs": vs}
+
+
+def sequence_sweep(rep, fresh: dict, rnd, libs_dts: dict, prop: str) -> None:
+    """fresh: (cls, lib, dt) -> "accept" / kind as answered by a fresh annotation object; libs_dts: lib -> dtypes."""
+    tasks = []
+    for cls in I.TENSOR_CLASSES:
+        for lib, dts in libs_dts.items():
+            order = list(dts)
+            rnd.shuffle(order)
+            for o in (order, order[::-1], sorted(dts)):
+                tasks.append({"cls": cls, "lib": lib, "dts": list(o)})
+    w = ImplWorker("harness.props.c04")
+    try:
+        res = w.call_many("impl_accepts_sequence", tasks)
+    finally:
+        w.close()
+    rep.streams["one_annotation_object_many_dtypes"] = len(tasks)
+    for t, r in zip(tasks, res):
+        if "vs" not in r:
+            continue
+        for i, (dt, v) in enumerate(zip(t["dts"], r["vs"])):
+            want = fresh.get((t["cls"], t["lib"], dt))
+            if want is not None and v != want:
+                rep.violation({"what": "an annotation object that has checked other dtypes before answers differently from a fresh one",
+                               "class": t["cls"], "library": t["lib"], "dtype": dt, "checked_before": t["dts"][:i], "got": v, "fresh": want})
+                break
 
 
 def np_spellings() -> list[str]:
@@ -168,6 +212,13 @@ def run(tier: str, seed: int, rep: Report, model: Model) -> dict:
             rep.violation({"what": "class accepts a dtype outside its documented category" if acc else "class rejects a dtype of its documented category", **rec})
         elif acc != (ans == "1"):
             rep.disagreement({"what": "model of `dtype in DTYPES` and implementation differ", **rec})
+    fresh = {(t["cls"], t["lib"], t["dt"]): ("accept" if r["v"] == "accept" else r.get("kind") or r.get("exn") or r["v"])
+             for t, r in zip(tasks, results) if "v" in r}
+    libs_dts: dict = {}
+    for t in tasks:
+        if t["dt"] not in libs_dts.setdefault(t["lib"], []):
+            libs_dts[t["lib"]].append(t["dt"])
+    sequence_sweep(rep, fresh, rng_for("C04", seed), libs_dts, "C04")
     # the same dtype under every spelling numpy offers (typecodes, C names, byte order): the verdict follows the category
     sp_tasks = [{"cls": cls, "spelling": sp} for cls in I.TENSOR_CLASSES for sp in np_spellings()]
     rep.streams["numpy_dtype_spellings"] = len(sp_tasks)
